@@ -256,6 +256,38 @@ def cross_section(P, rep, rule="EXPR.crosssection"):
         rep.violation(rule, "cross section unit conversion", W.nloc(conv) if conv else W.loc, W.qn, norm.render(P, conv) if conv else "",
                       "cross section is not converted from degrees exactly in spherical worlds", key=rule + "|degrees",
                       witness="spherical world with a cross section away from longitude 0")
+    # nothing else writes the stored cross section
+    others = []
+    for F in P.funcs.values():
+        if F.body is None or not F.qn.startswith("WorldBuilder::World::"):
+            continue
+        for n in F.walk():
+            k = n.get("k")
+            tgt = None
+            if k in ("BinaryOperator", "CompoundAssignOperator", "CXXOperatorCallExpr") and n.get("op") in norm.ASSIGN_OPS:
+                tgt = n["c"][0]
+            elif k == "UnaryOperator" and n.get("op") in ("++", "--"):
+                tgt = n["c"][0]
+            elif k == "CXXMemberCallExpr" and n["c"][0].get("k") == "MemberExpr" and n["c"][0].get("c") and not P.d(n.get("callee")).get("const"):
+                if astq.is_this_field(P, n["c"][0]["c"][0], "cross_section") and n["c"][0].get("n") not in ("push_back", "emplace_back", "back", "front", "operator[]", "at", "begin", "end"):
+                    others.append((F, n))
+                continue
+            if tgt is None:
+                continue
+            b = tgt
+            hit = False
+            for y in F.walk(b):
+                if y.get("k") == "MemberExpr" and astq.is_this_field(P, y, "cross_section"):
+                    hit = True
+            if hit:
+                others.append((F, n))
+    if others:
+        F, n = others[0]
+        rep.violation(rule, "the stored cross section is modified after it was read: %s" % norm.render(P, n)[:80], F.nloc(n), F.qn, norm.render(P, n)[:140],
+                      "the section the 2D interface follows is no longer the one in the file", key=rule + "|rewritten",
+                      witness="a cross section for which the rewriting condition holds at one end point only")
+    else:
+        rep.ok(rule, "cross_section is written only by the push_back of the converted entry", W.loc, W.qn)
     # the 2D -> 3D map
     F2 = P.func("WorldBuilder::World::properties", ptypes=["array<double, 2>"])
     F3 = P.func("WorldBuilder::World::properties", ptypes=["array<double, 3>"])
